@@ -303,6 +303,8 @@ def _uuid_case(vals, acc):
 
 def run(ctx):
     rep = ctx.new_report()
+    from vlib.ref import noise as _noise
+    E.set_noise(_noise.strutils_noise())
     subjects = []
     for w in TRUE_WORDS + FALSE_WORDS:
         for form in (w, w.upper(), w.title()):
